@@ -880,6 +880,13 @@ func (e *Env) call(ex ECall) (Value, error) {
 			if err != nil {
 				return nil, err
 			}
+			if iv, ok := v.(IfaceV); ok && iv.Dyn != nil {
+				// an interface value whose dynamic type is statically a map or slice
+				switch iv.Dyn.Underlying().(type) {
+				case *types.Map, *types.Slice:
+					v = e.x.unbox(iv.Data, iv.Dyn)
+				}
+			}
 			switch a := v.(type) {
 			case SliceV:
 				return intV(a.Len), nil
